@@ -6,7 +6,7 @@
    used through its contract "returns the list of components"; its body is judged by the bounded stand-in b06).
    requires  d_i >= 0, sum d_i == 2 E (handshake: the adjacency is symmetric and irreflexive, every bond is listed at both ends), 1 <= C <= V
    ensures   result == E - V + C                 (taken from the property statement)
-   Shape bound: V concrete (1..6 quick, ..12 thorough); the degrees, E and C are unbounded symbolic integers.
+   Shape bound: V concrete (1..6 quick, ..12 thorough); the degrees (< 2^24), E (< 2^32) and C are symbolic integers - no molecule approaches these sizes.
  * Rings.not_special_connectivity - the whole REAL property function runs on a receiver stub whose `_bonds` holds real `Bond` objects with a
    SYMBOLIC order in {1, 2, 3, 4, 8} (star of degree k around atom 0, k = 1..4; atoms are treated independently by the loop, shape bound k):
    ensures   key set == atom set, and m in result[n]  <=>  order(n, m) != 8        (both directions of every bond)
@@ -51,8 +51,8 @@ def _count_cases():
     out = []
     for v in range(1, 13):
         dom = []
-        ds = [sym_int(f'd{i}', 0, 1 << 40, dom) for i in range(v)]
-        e = sym_int('E', 0, 1 << 44, dom)
+        ds = [sym_int(f'd{i}', dom=dom, bits=24) for i in range(v)]
+        e = sym_int('E', dom=dom, bits=32)
         c = sym_int('C', 1, v, dom)
         tot = ds[0].z
         for d in ds[1:]:
@@ -146,10 +146,8 @@ def _nsc_cases():
 
 def cases():
     out = _count_cases() + _nsc_cases()
-    c = out[0]
-    good = c.ensures
-    out.append(Case(c.name + '/CANARY-negated', c.fn, c.requires, lambda v: z3.Not(good(v)), (), None, c.target, expect_fail=True))
-    c = out[12]
-    good2 = c.ensures
-    out.append(Case(c.name + '/CANARY-negated', c.fn, c.requires, lambda v: z3.Not(good2(v)), (), None, c.target, expect_fail=True))
+    # vacuity guards: the postcondition `False` must be refuted on a feasible path (a contradictory `requires` would verify it); independent of
+    # what the code computes, so a tree whose function is wrong for every input fails its obligation instead of tripping the canary
+    for c in (out[0], out[12]):
+        out.append(Case(c.name + '/CANARY-false-post', c.fn, c.requires, lambda v: z3.BoolVal(False), (), None, c.target, expect_fail=True))
     return out
